@@ -191,7 +191,9 @@ def goto(reference_beats, estimated_beats, goto_threshold=0.35, goto_mu=0.2,
     if not ref or not est:
         return 0.0, INF
     thr, mu, sigma = fr(goto_threshold), fr(goto_mu), fr(goto_sigma)
-    mg = Margin(on_lattice(ref, est, thr, mu, sigma))
+    mg = Margin(on_lattice(ref, est))        # window-edge ties: times only
+    lat_thr = mg.trusted and on_lattice(thr)
+    lat_mu = mg.trusted and on_lattice(mu)
     n_ref = len(ref)
     err = [Fraction(1)] * n_ref
     for n in range(1, n_ref - 1):
@@ -210,7 +212,7 @@ def goto(reference_beats, estimated_beats, goto_threshold=0.35, goto_mu=0.2,
             err[n] = off / half
     incorrect = []
     for n in range(n_ref):
-        mg.see(abs(err[n]), thr)
+        mg.see(abs(err[n]), thr, trusted=lat_thr)
         if abs(err[n]) > thr:
             incorrect.append(n)
     if not incorrect:
@@ -232,7 +234,7 @@ def goto(reference_beats, estimated_beats, goto_threshold=0.35, goto_mu=0.2,
     mean_abs = sum(abs(x) for x in track) / len(track)
     # the library sums float quotients: a tie of the mean is only reproducible
     # if every error is itself a float
-    mg.see(mean_abs, mu, trusted=all(float_exact(x) for x in track))
+    mg.see(mean_abs, mu, trusted=lat_mu and all(float_exact(x) for x in track))
     if not mean_abs < mu:
         return 0.0, mg.value
     if len(track) < 2:
@@ -281,7 +283,7 @@ def p_score(reference_beats, estimated_beats, p_score_threshold=0.2):
     if len(ref) <= 1 or len(est) <= 1:
         return 0.0, INF
     thr = fr(p_score_threshold)
-    mg = Margin(on_lattice(ref, est, thr))
+    mg = Margin(on_lattice(ref, est))        # ceil ties: times only
     t0 = min(min(ref), min(est))
 
     def train(ts):
@@ -290,7 +292,9 @@ def p_score(reference_beats, estimated_beats, p_score_threshold=0.2):
             x = (t - t0) * _FS
             c = math.ceil(x)
             # distance to the nearest ceil boundary (an integer), in seconds
-            mg.gap(min(x - math.floor(x), c - x) / _FS)
+            # (t == t0 gives x == 0 exactly in any float arithmetic)
+            mg.gap(min(x - math.floor(x), c - x) / _FS,
+                   trusted=True if t == t0 else None)
             idx.add(c)
         return sorted(idx)
 
@@ -302,7 +306,7 @@ def p_score(reference_beats, estimated_beats, p_score_threshold=0.2):
     med = Fraction(diffs[n // 2]) if n % 2 else Fraction(diffs[n // 2 - 1] + diffs[n // 2], 2)
     x = thr * med
     win = round_half_even(x)
-    mg.gap(dist_to_half_integer(x) / _FS)
+    mg.gap(dist_to_half_integer(x) / _FS, trusted=on_lattice(thr))
     pairs = sum(1 for i in r_idx for j in e_idx if abs(i - j) <= win)
     return pairs / float(max(len(ref), len(est))), mg.value
 
@@ -314,14 +318,14 @@ def p_score(reference_beats, estimated_beats, p_score_threshold=0.2):
 _BIG = None        # stands for +infinity / undefined in phase and period
 
 
-def _lt(x, t, mg):
+def _lt(x, t, mg, trusted):
     if x is _BIG:
         return False
-    mg.see(x, t)
+    mg.see(x, t, trusted=trusted)
     return x < t
 
 
-def _continuity_one(ann, est, phase_thr, period_thr, mg):
+def _continuity_one(ann, est, phase_thr, period_thr, mg, lat_thr):
     """Success flag of every estimated beat against one annotation sequence.
 
     For estimated beat m with nearest annotation j (first of equals):
@@ -366,7 +370,8 @@ def _continuity_one(ann, est, phase_thr, period_thr, mg):
                     else:
                         phase = abs(dmin / ref_int)
                         period = abs(1 - est_int / ref_int)
-                ok = _lt(phase, phase_thr, mg) and _lt(period, period_thr, mg)
+                ok = (_lt(phase, phase_thr, mg, lat_thr)
+                      and _lt(period, period_thr, mg, lat_thr))
                 if ok:
                     used[j] = True
         flags.append(ok)
@@ -395,10 +400,11 @@ def continuity(reference_beats, estimated_beats, continuity_phase_threshold=0.17
     if len(ref) <= 1 or len(est) <= 1:
         return (0.0, 0.0, 0.0, 0.0), INF
     pt, qt = fr(continuity_phase_threshold), fr(continuity_period_threshold)
-    mg = Margin(on_lattice(ref, est, pt, qt))
+    mg = Margin(on_lattice(ref, est))        # nearest-annotation ties: times only
+    lat_thr = mg.trusted and on_lattice(pt, qt)
     cont, tot = [], []
     for var in _variations(ref):
-        flags = _continuity_one(var, est, pt, qt, mg)
+        flags = _continuity_one(var, est, pt, qt, mg, lat_thr)
         length = max(len(var), len(est))
         cont.append(Fraction(_longest_run(flags), length))
         tot.append(Fraction(sum(flags), length))
@@ -453,7 +459,7 @@ def _entropy(ann, beats, bins, mg):
         elif z == k:
             # exactly on an interior edge: the library's edges are floats of
             # -1/2 + i/bins, exact only when bins is a power of two
-            mg.gap(0, trusted=_is_pow2(bins))
+            mg.gap(0, trusted=mg.trusted and _is_pow2(bins))
         else:
             mg.gap(min(z - k, k + 1 - z) / bins)
         counts[k] += 1
